@@ -1,7 +1,7 @@
 /-
 Arbitrary call sequences: the local invariant is kept, the gates imply that the builders succeed,
 the ClOrdID counter strictly increases and every id built is `<root of the current id>--<counter>`;
-for roots that are non-empty, single-line and not of the chain form this is `<root>--<counter>`.
+for roots that are non-empty and not of the chain form this is `<root>--<counter>`.
 -/
 import AsyncFix.Lemmas.OrderObjLocal
 namespace AsyncFix.Model.OrderObj
@@ -266,10 +266,9 @@ theorem builtOps_fresh (o : Order) (ops : List Op) :
 
 /-! ### roots the property covers -/
 
-/-- non-empty, single line, not itself ending in the chaining suffix -/
+/-- non-empty, not itself ending in the chaining suffix -/
 structure GoodRoot (root : Str) : Prop where
   ne : root ≠ []
-  line : 10 ∉ root
   bare : ¬ ChainForm root
 
 /-- every id the order holds is the root or a chained id of the root -/
@@ -281,8 +280,8 @@ structure IdInv (root : Str) (o : Order) : Prop where
 
 theorem clordRoot_idOf {root x : Str} (g : GoodRoot root) (h : IdOf root x) : clordRoot x = root := by
   rcases h with rfl | ⟨j, rfl⟩
-  · exact clordRoot_bare _ g.line g.bare
-  · exact clordRoot_chain_dec root j g.ne g.line
+  · exact clordRoot_bare _ g.bare
+  · exact clordRoot_chain_dec root j g.ne
 
 theorem nextId_good {root : Str} {o : Order} (g : GoodRoot root) (h : IdInv root o) :
     nextId o = root ++ [45, 45] ++ dec (o.clordCnt + 1) := by
